@@ -459,6 +459,15 @@ class SimSubprocess:
                 rec["peer"] = "no-input-file"
                 return (b"c usage: solver <file>\n", None)
             text = self._read(files[-1])
+            if self.plan.get("input_file") == "deleted" and text is not None:
+                # a wrapper that tidies up after its solver (or a solver
+                # that does): the input file is gone when the run is over
+                self.ctx.fault("input_file_deleted_by_the_solver")
+                try:
+                    import os as _os
+                    _os.unlink(files[-1])
+                except OSError:
+                    pass
         elif conv == "filein_fileout":
             if len(files) < 2:
                 rec["peer"] = "need-two-files"
@@ -493,6 +502,12 @@ class SimSubprocess:
             top = max([abs(l) for c in parsed.clauses for l in c] or [0])
             model = [l for l in model if abs(l) <= top]
             self.ctx.fault("model_up_to_the_highest_used_variable")
+        if verdict and shape.get("model_only_used"):
+            # other solvers print the variables that occur in some clause
+            # and no other, wherever they are in the numbering
+            occ = set(abs(l) for c in parsed.clauses for l in c)
+            model = [l for l in model if abs(l) in occ]
+            self.ctx.fault("model_of_the_used_variables_only")
         rec["verdict"] = verdict
         rec["model"] = model
         # exit status: the SAT competition convention (10 / 20) or plain 0,
@@ -674,8 +689,11 @@ def random_shape(rng):
         s["stderr"] = [rng.randrange(7) for _ in range(rng.randint(1, 3))]
         s["stderr_first"] = rng.random() < 0.5
     s["exit_10_20"] = rng.random() < 0.6
-    if rng.random() < 0.2:
+    r = rng.random()
+    if r < 0.2:
         s["model_upto_used"] = True
+    elif r < 0.35:
+        s["model_only_used"] = True
     if rng.random() < 0.06:
         # a solver that only tells whether the formula is satisfiable (some
         # print the model only on request)
